@@ -103,7 +103,7 @@ FAMS = ['tt', 'tt', 'tt', 'dense', 'dense', 'diff', 'lin', 'general']
 
 
 def gen_cases(seed, tier):
-    n = 12000 if tier == 'quick' else 600000
+    n = 30000 if tier == 'quick' else 600000
     rng = np.random.default_rng([seed, 112])
     # the family is drawn (not cycled) so that every shard sees them all
     seeds = rng.integers(1 << 62, size=n).tolist()
